@@ -2,7 +2,7 @@
    Statements only; proofs are in C02/Proofs*.v. *)
 From Coq Require Import List Arith QArith Qminmax Lqa Lia Bool.
 From AIT Require Import Base.Qx Base.Mdp Base.MdpExec C02.Model C02.Spec C02.ProofsVec C02.ProofsCross
-  C02.ProofsSched C02.ProofsProj C02.ProofsIP C02.ProofsPrunePw.
+  C02.ProofsSched C02.ProofsProj C02.ProofsIP C02.ProofsPrunePw C02.ProofsEV C02.ProofsRTBSS.
 Import ListNotations.
 Local Open Scope Q_scope.
 
@@ -58,6 +58,29 @@ Proof.
 Qed.
 Print Assumptions ip_schedule_covers_partial.
 
+(* RTBSS (branch and bound with the repaired bound discount * max(maxR,0) * horizon): for every
+   POMDP, every valid reward bound maxR (ANY sign), every horizon and normalised belief, the value
+   returned is the exact expectimax value and the recorded action attains it — provided no
+   reachable branch has probability in (0, 1e-6] (the code skips branches below its tolerance). *)
+Theorem rtbss_value : forall m maxR, wf_pomdp m ->
+  (forall s a, (s < nS (pm m))%nat -> (a < nA (pm m))%nat -> Rw m s a <= maxR) ->
+  forall h b, nonneg b -> length b = nS (pm m) -> qsum b == 1 -> rtbss_clean m h b ->
+    fst (rtbss_sim m maxR h b) == EV m h b /\
+    ((0 < h)%nat -> (snd (rtbss_sim m maxR h b) < nA (pm m))%nat /\
+                    Qa m (h - 1) b (snd (rtbss_sim m maxR h b)) == EV m h b).
+Proof. intros m maxR Hwf HR. exact (rtbss_value_lemma m Hwf maxR HR). Qed.
+Print Assumptions rtbss_value.
+
+(* supporting facts about expectimax used above (and by C03) *)
+Theorem EV_homogeneous : forall m n c t, 0 <= c -> EV m n (vsc c t) == c * EV m n t.
+Proof. exact EV_scale. Qed.
+Print Assumptions EV_homogeneous.
+
+Theorem belief_mass_conservation : forall m, wf_pomdp m -> forall t a, (a < nA (pm m))%nat ->
+  qsum (map (fun o => mass m (tau_step m t a o)) (seq 0 (nO m))) == mass m t.
+Proof. exact mass_conservation. Qed.
+Print Assumptions belief_mass_conservation.
+
 (* Non-vacuity: a concrete 2-state, 2-action, 2-observation POMDP meets every hypothesis. *)
 Definition ex_pomdp : pomdp :=
   {| pm := {| nS := 2; nA := 2;
@@ -66,9 +89,10 @@ Definition ex_pomdp : pomdp :=
      nO := 2; Ob := [ [[1; 0]; [1#2; 1#2]]; [[3#4; 1#4]; [0; 1]] ] |}.
 
 Example ex_hypotheses : wf_pomdp ex_pomdp /\ obs_clean ex_pomdp /\ ops_ok (nO ex_pomdp) = true /\
-  nonneg [1#2; 1#2] /\ ~ (EV ex_pomdp 2 [1#2; 1#2] == 0).
+  nonneg [1#2; 1#2] /\ ~ (EV ex_pomdp 2 [1#2; 1#2] == 0) /\
+  rtbss_clean ex_pomdp 3 [1#2; 1#2] /\ (forall s a, (s < 2)%nat -> (a < 2)%nat -> Rw ex_pomdp s a <= 2).
 Proof.
-  split; [| split; [| split; [| split]]].
+  split; [| split; [| split; [| split; [| split; [| split]]]]].
   - unfold wf_pomdp, wf_mdp, simplex, is_dist. cbn [pm nS nA gam P R nO Ob ex_pomdp length].
     repeat split; try lia; try lra; try reflexivity.
     + intros [|[|a]] Ha; try lia; reflexivity.
@@ -84,4 +108,6 @@ Proof.
   - vm_compute; reflexivity.
   - repeat constructor; lra.
   - vm_compute. discriminate.
+  - apply rtbss_cleanb_sound. vm_compute. reflexivity.
+  - intros [|[|s]] [|[|a]] Hs Ha; try lia; vm_compute; discriminate.
 Qed.
